@@ -11,7 +11,7 @@ class C12(OptCheck):
     technique = "Coq proof (everything after the first -- is positional verbatim, greedy rest, limit, negative indices) + differential run enumerating limits x greedy x -- positions x indices"
     level_text = 'Theorems on the parser loop: positional-only mode takes every remaining token verbatim in order and fails only on the accepted count; -- switches to it; greedy rest; limit respected; negative-index arithmetic of arguments::get(int) incl. both out-of-range ends; spec side via assignment. Differential enumeration of limits x greedy x -- positions x indices'
     level_note = "trusted: Coq kernel; ExtrOcamlBasic extraction + OCaml; the differential harness (generators, C++ driver through the public API under ASan/UBSan, canonical observation lines); gen/tr_vocab.py for C11. Theorem hypotheses: wf_decl (names non-empty, no '=', not starting with '-', pairwise distinct; letters neither '-' nor '='), no_clash (known finding K1: no toggle foo next to anything called no-foo), aligned state (every reachable state is: C14_reachable_aligned). Modelled, not verified: std::map name order, std::multiset::count on letters, std::getline at ';', getenv, object lifetimes, int overflow of counts (model uses Z), operator>> for typed access (exercised with as<long> on decimal texts only). The tie model=code is bounded-exhaustive + sampled, not proved"
-    rule = ("core stream + positional stream: accepted counts {0,1,2,3,unlimited} x greedy on/off x all vectors of length <= 4 (quick 3) over "
+    rule = ("core stream (exhaustive short vectors over declaration-relative tokens for 12 declaration shapes; random vectors, random declarations and environments; 'steps' histories on ONE long-lived parser object — several calls, environment changes, further declarations, move construction, move assignment from a differently declared parser — each call also made on a freshly built identical parser; declarations spread over named groups in a hash-derived order) + positional stream: accepted counts {0,1,2,3,unlimited} x greedy on/off x all vectors of length <= 4 (quick 3) over "
             "{value, second value, declared option with value, toggle, --, -, ---x, -=x, --unknown, empty string}; every result is read through "
             "get(i)/operator[] for all i in [-n-1, n]; non-trivial = at least one token; distinct = distinct case line")
 
